@@ -5,7 +5,8 @@
  *     S                                                          (fsync / fdatasync)
  *     T <length>                                                 (ftruncate)
  *     F <mode> <offset> <length>                                 (fallocate)
- * Optional fault injection: $IOTRACE_FAIL_AT=n makes the n-th write-class call fail with EIO.
+ * Optional fault injection: $IOTRACE_FAIL_AT=n makes the n-th write-class call fail with EIO;
+ * $IOTRACE_KILL_AT=n ends the process with _exit(137) (no atexit handlers, no stdio flush: like SIGKILL) instead of performing the n-th write-class call.
  * uuid_generate()/uuid_generate_time() are fixed when $IOTRACE_FIXED_UUID is set (determinism of journal resets).
  */
 #define _GNU_SOURCE
@@ -25,7 +26,7 @@ static char tracked[MAXFD];
 static off_t pos[MAXFD];
 static FILE *logf;
 static const char *tpath, *tpath2;	/* second tracked file (external journal device): events carry the suffix 2 */
-static long nwrites, fail_at = -1;
+static long nwrites, fail_at = -1, kill_at = -1;
 static int inited;
 
 static void init(void)
@@ -37,6 +38,7 @@ static void init(void)
 	l = getenv("IOTRACE_LOG");
 	if (l) { int fd = ((int (*)(const char *, int, ...)) dlsym(RTLD_NEXT, "open"))(l, O_WRONLY | O_CREAT | O_APPEND, 0644); if (fd >= 0) logf = fdopen(fd, "a"); }
 	if (getenv("IOTRACE_FAIL_AT")) fail_at = atol(getenv("IOTRACE_FAIL_AT"));
+	if (getenv("IOTRACE_KILL_AT")) kill_at = atol(getenv("IOTRACE_KILL_AT"));
 }
 static void note_open(int fd, const char *path)
 {
@@ -51,7 +53,7 @@ static void logw(int dev, off_t off, const void *buf, size_t n)
 	if (n <= 65536) for (i = 0; i < n; i++) fprintf(logf, "%02x", p[i]);
 	fputc('\n', logf); fflush(logf);
 }
-static int inject(void) { nwrites++; if (fail_at > 0 && nwrites == fail_at) { errno = EIO; return 1; } return 0; }
+static int inject(void) { nwrites++; if (kill_at > 0 && nwrites == kill_at) _exit(137); if (fail_at > 0 && nwrites == fail_at) { errno = EIO; return 1; } return 0; }
 
 #define REAL(name, type) static type real; if (!real) real = (type) dlsym(RTLD_NEXT, name)
 int open(const char *path, int flags, ...)
